@@ -27,6 +27,16 @@ func verifPoint(l *Log, name string) {
 	}
 }
 
+// VerifSubmitted, if set, is called by the add-chain handlers right after
+// addLeafToPool returned, with the request context and the source it reported.
+var VerifSubmitted func(ctx context.Context, source string)
+
+func verifSubmitted(ctx context.Context, source string) {
+	if VerifSubmitted != nil {
+		VerifSubmitted(ctx, source)
+	}
+}
+
 func VerifSetTimeNowUnixMilli(f func() int64) {
 	timeNowUnixMilli = f
 }
